@@ -91,6 +91,9 @@ def main():
     tasks = [("mutant", p) for p in sorted(glob.glob(os.path.join(VERIF, "mutants", "*.patch")))] + \
             [("benign", p) for p in sorted(glob.glob(os.path.join(VERIF, "benign", "*.patch")))] + \
             [("mutant", os.path.join(d, "patch.diff")) for d in sorted(glob.glob(os.path.join(VERIF, "seeded", "*"))) if os.path.exists(os.path.join(d, "patch.diff"))]
+    if "--only" in sys.argv:
+        kind_only = sys.argv[sys.argv.index("--only") + 1]
+        tasks = [t for t in tasks if (kind_only == "benign") == (t[0] == "benign")]
     bad = 0
     n = 0
     with concurrent.futures.ThreadPoolExecutor(max_workers=jobs) as ex:
